@@ -304,6 +304,36 @@ def connect_each(rep, tier):
     rep.exhaustive["connect outcome patterns"] = True
 
 
+def outage_attempts(seed, n):
+    """n consecutive connection attempts, none of which reaches Ready (transport failures of every kind)"""
+    from . import c16
+    r = random.Random(seed)
+    out = []
+    while len(out) < n:
+        a = c16.real_attempt(r)
+        if not a["_kind"].startswith("ready"):
+            out.append(a)
+    return out
+
+
+def judge_outage(seed, n):
+    from . import c16
+    return c16.judge_real(outage_attempts(seed, n))
+
+
+def long_outage(rep, rnd, tier):
+    """the reconnecting iterator (persist) is an event iterator too: a long outage -- more than a thousand consecutive
+    failed attempts -- must go on producing ConnectFail/Disconnected and BackOff, never an exception"""
+    lens = [1100] if tier == "quick" else [1100, 2200, 4400]
+    for n in lens:
+        seed = rnd.randrange(1 << 30)
+        bad = judge_outage(seed, n)
+        rep.add_case(("long-outage", n, seed))
+        if bad:
+            rep.violation(bad, scenario=dict(kind="long-outage", seed=seed, attempts=n), family="C09:long-outage")
+    rep.families.append(dict(name="C09:long-outage", cases=len(lens), rule="persist() driving the REAL WebSocket/WebsocketSession over the simulated network through %s consecutive attempts that all fail before Ready (resolver/connect failure, request write failing, rejection, EOF, garbage, recv failure): nothing may escape the iterator, every attempt ends in ConnectFail/Disconnected and a BackOff, no socket stays open" % "/".join(map(str, lens))))
+
+
 def run(rep, info, model, tier, seed):
     rnd = random.Random(seed)
     proof_ok = rep.proof_obligations(info, "props/C09.v")
@@ -317,6 +347,7 @@ def run(rep, info, model, tier, seed):
                    rule="for each base scenario: connect failure; sendall k=0..5 failing with OSError / arbitrary exception; the stream cut at (nearly) every byte offset followed by EOF / ECONNRESET / RuntimeError; selector wait raising at each step; oracle: nothing escapes next(), no hang, ConnectFail/Disconnected last, graceful=False unless a closing handshake had started, socket closed, application calls raise only WebSocketError subclasses")
     connect_each(rep, tier)
     real_selector_family(rep)
+    long_outage(rep, rnd, tier)
     if not proof_ok and not rep.violations:
         rep.broken("proof obligation props/C09.v no longer checks: %s" % (rep.coq_failure,))
 
@@ -343,6 +374,10 @@ def replay(body):
             return 2
         print("REPLAY:", ("VIOLATION reproduced: %s" % r.v[0]) if r.v else "property holds on this input")
         return 1 if r.v else 0
+    if sc.get("kind") == "long-outage":
+        bad = judge_outage(sc["seed"], sc["attempts"])
+        print("REPLAY:", ("VIOLATION reproduced: %s" % bad) if bad else "property holds on this input")
+        return 1 if bad else 0
     if sc.get("kind") == "connect_each":
         complaint, exp, res, log = judge_connect(sc["resolve_ok"], sc["create_ok"], sc["connect_ok"], bool(sc.get("v6")))
         print("socket module calls:", log)
